@@ -282,3 +282,102 @@ Example c12_source_example :
   py_handle_frame_sent (pending_of st) 7 0x0101 0 = PUnexpected /\
   py_handle_frame_sent (pending_of st) 7 1 0 = PSetResult (7, 1) 0 "message send success".
 Proof. vm_compute. split; reflexivity. Qed.
+
+(* ---- send_packet itself, from its source text ------------------------------------------------------
+   gen/GenSendPacketFn.v is emitted on every run from the Python AST of ControllerApplication.send_packet, from
+   `async with self._limit_concurrency(..)` on (harness/pysrc.py, SpTr): the coroutine in continuation style, every
+   suspension point resumed as an outcome argument says (ol: the limiter; o i: the lock, the commands awaited by name, the
+   send command with its status, the sleep of loop iteration i; oc: the confirmation, its absence, something thrown in),
+   `with` / `async with` as scopes whose exit effect is appended on every way out, the retry loop as the emitted body
+   py_send_attempt folded over enumerate(RETRY_DELAYS) with Python's for / else.  Vocabulary (proofs/SendPacketSrc_proofs.v):
+     mtrace id st es        [sstep] along es: per event its outputs and the request afterwards ([view_of]: None = no
+                            bookkeeping, else the key of its entry, what it waits for, whether it holds the request lock)
+     script_trace id dst r  the scan of the effect list: lock held between ELockAcquire / ELockRelease, entry present
+                            between EPendingNew / EPendingRemove, one step per command awaited / sleep / wait for the
+                            confirmation, then the completion [XDone id (res_of result)]
+     model_events ..        the call (SSend), then per suspension point the event its outcome stands for: SReply (set-up
+                            answered: EnqOk; the send status read by [classify]), STimer (sleep over / no confirmation),
+                            SConfirm key (status normalises to OK), SCancel (something thrown in at the await)
+   Every execution in which the request lock is free when asked for is that path of the model: same commands in the same
+   order, the lock held at exactly the same suspension points, the entry present from registration to the end under the
+   key (destination, tag), every sleep the model's delay for that attempt, the timeout the generated constant, the same
+   outcome, and the state afterwards the state before with the tag counter advanced. *)
+Require Import BV.gen.GenSendPacketFn BV.proofs.SendPacketSrc_proofs.
+
+Theorem c12_source_send_packet : forall id knd fam p otop o oc st0,
+  kind_of_mode (p_addr_mode p) = Some knd ->
+  s_lock st0 = None -> s_lockq st0 = [] -> rget id (s_reqs st0) = None ->
+  (forall a, o_lock (o a) = AwOk) ->
+  let dst := p_dst_address p in
+  let tag := (s_seq st0 + 1) mod 256 in
+  let run := py_send_packet fam p tag (pending_has_of st0) AwOk otop o oc in
+  mtrace id st0 (model_events id knd fam p tag o oc (pending_has_of st0 (dst, tag)))
+  = (script_trace id dst run, {| s_seq := tag; s_reqs := s_reqs st0; s_lock := None; s_lockq := [] |}).
+Proof. exact src_send_packet. Qed.
+
+(* the path consists of the call and of events of this request only *)
+Theorem c12_source_path_events : forall id knd fam p tag o oc dup,
+  exists rest, model_events id knd fam p tag o oc dup = SSend id knd (p_dst_address p) (nsetup_of p) :: rest /\
+               forallb (own_event id (p_dst_address p) tag) rest = true.
+Proof. exact path_events_own. Qed.
+
+(* on the effect list alone, for EVERY execution (any outcome of any suspension point): the request lock is taken anew
+   in each attempt, every command lies inside a lock section, a section holds the set-up commands followed by at most
+   one send command and nothing after it, and the sleep, the wait for the confirmation and the registration / removal of
+   the entry lie outside *)
+Theorem c12_source_lock_scope : forall fam p knd tag has ol otop o oc, kind_of_mode (p_addr_mode p) = Some knd ->
+  lock_scoped LOut (fst (py_send_packet fam p tag has ol otop o oc)) = true.
+Proof. exact src_lock_scope. Qed.
+
+(* the entry is registered once, before the loop, and removed on every way out, last before the limiter is released *)
+Theorem c12_source_pending_scope : forall fam p knd tag has otop o oc, kind_of_mode (p_addr_mode p) = Some knd ->
+  let key := (p_dst_address p, tag) in
+  let run := py_send_packet fam p tag has AwOk otop o oc in
+  if has key then run = ([ELimiterAcquire; EGetSequence; ELimiterRelease], SpRaise XDuplicate)
+  else exists mid, fst run = ELimiterAcquire :: EGetSequence :: EPendingNew key :: mid ++ [EPendingRemove key; ELimiterRelease] /\
+                   forallb (inner_eff key) mid = true /\ snd run <> SpRaise XDuplicate /\ snd run <> SpRaise XUnboundLocal.
+Proof. exact src_pending_scope. Qed.
+
+Theorem c12_source_limiter_thrown : forall fam p tag has otop o oc,
+  py_send_packet fam p tag has AwThrow otop o oc = ([], SpRaise XThrown).
+Proof. exact limiter_thrown. Qed.
+
+(* the lock is held by another request and the wait for it is thrown out of: nothing was sent, nothing remains *)
+Theorem c12_source_lock_wait_thrown : forall id knd fam p otop o oc st0 h,
+  kind_of_mode (p_addr_mode p) = Some knd ->
+  s_lock st0 = Some h -> h <> id -> ~ In id (s_lockq st0) -> rget id (s_reqs st0) = None ->
+  o_lock (o 0) = AwThrow ->
+  let dst := p_dst_address p in
+  let tag := (s_seq st0 + 1) mod 256 in
+  pending_has_of st0 (dst, tag) = false ->
+  let run := py_send_packet fam p tag (pending_has_of st0) AwOk otop o oc in
+  run = ([ELimiterAcquire; EGetSequence; EPendingNew (dst, tag); EPendingRemove (dst, tag); ELimiterRelease], SpRaise XThrown) /\
+  mtrace id st0 [SSend id knd dst (nsetup_of p); SCancel id]
+  = ([([], Some ((dst, tag), WLock, false)); ([XDone id (res_of (snd run))], None)],
+     {| s_seq := tag; s_reqs := s_reqs st0; s_lock := Some h; s_lockq := s_lockq st0 |}).
+Proof. exact src_lock_wait_thrown. Qed.
+
+(* the statuses answered by a retry are the three the property names (members named by the source, values of the generated
+   sl_Status table); OK is accepted, everything else refused *)
+Theorem c12_source_busy_statuses :
+  map fst py_busy_statuses = ["ZIGBEE_MAX_MESSAGE_LIMIT_REACHED"; "TRANSMIT_BUSY"; "ALLOCATION_FAILED"]%string /\
+  forallb (fun nv => match member (fst nv) sl_members with Some v => v =? snd nv | None => false end) py_busy_statuses = true /\
+  classify sl_OK = EnqOk /\
+  (forall s, classify s = EnqBusy <-> s <> sl_OK /\ In s (map snd py_busy_statuses)).
+Proof. exact src_busy_statuses. Qed.
+
+(* non-vacuity: busy on every attempt -- a lock section with the route set-up and the send command per attempt, the
+   attempt's delay slept after each of them (also after the last one), then the delivery error *)
+Example c12_source_all_busy :
+  py_send_packet FUnified ex_packet 7 (fun _ => false) AwOk ex_busy (fun _ => ex_busy) ConfTimeout =
+    (let setup := ECmd "set_source_route" [("nwk"%string, 0x1234)] in
+     let send := ECmd "send_unicast" [("nwk"%string, 0x1234); ("message_tag"%string, 7)] in
+     [ELimiterAcquire; EGetSequence; EPendingNew (0x1234, 7);
+      ELockAcquire; setup; send; ELockRelease; ESleep (1, 2);
+      ELockAcquire; setup; send; ELockRelease; ESleep (1, 1);
+      ELockAcquire; setup; send; ELockRelease; ESleep (3, 2);
+      EPendingRemove (0x1234, 7); ELimiterRelease], SpRaise XDeliveryError)
+  /\ model_events 1 Unicast FUnified ex_packet 7 (fun _ => ex_busy) ConfTimeout false =
+     [SSend 1 Unicast 0x1234 1; SReply 1 EnqOk; SReply 1 EnqBusy; STimer 1; SReply 1 EnqOk; SReply 1 EnqBusy; STimer 1;
+      SReply 1 EnqOk; SReply 1 EnqBusy; STimer 1].
+Proof. exact src_all_busy. Qed.
